@@ -24,6 +24,19 @@ CLAIMED = {
         technique="Lean 4 proof (omega after eliminating variable moduli; generic graph lemmas) + AST translator + exact correspondence",
         note=TB + " get_nearest_neighbors modelled for concrete integer positions; three_dimensional_grid has no adjacency method (generic loop used).",
     ),
+    "C07": dict(
+        category="proof",
+        text=("Lean theorems over any linearly ordered field, every N, every weight vector with W>0, every offset in (0,1): "
+              "indices < N (only existing walkers), equal new weights summing to W, copies(k) = floor(b-z)-floor(a-z) in "
+              "{floor x, ceil x} with x = N|w_k|/W, zero weight never selected, copies sum to N, indices monotone, NumPy = jitted, "
+              "UHF blocks indexed together, integral over the offset of copies(k) = x exactly (real weights), and an MPI "
+              "gather/compute/scatter transition system: every interleaving delivers the slices of the serial comb, no deadlock. "
+              "Tied to the code by exact comparison of index vectors for all variants (incl. 2-4 fake MPI ranks with random "
+              "arrival order replayed through the model) and by the property evaluated exactly on the implementation."),
+        design_ref="DESIGN.md §5/C07",
+        technique="Lean 4 proof (floor counting via Int.card_Ioc, interval integral of a floor, invariant induction over event lists) + exact correspondence at K=Q",
+        note=TB + " Real MPI is not available (no libmpi): collectives are modelled; the code runs against harness/fakempi.py. searchsorted/cumsum float behaviour trusted away from ties (near-ties skipped by exact margin and counted).",
+    ),
 }
 
 NOT_YET = {}
